@@ -50,6 +50,9 @@ type Case struct {
 	Lenient bool `json:"lenient,omitempty"`
 	// Defs, when set, is run instead of parsing G (differential runs on a re-parsed model).
 	Defs *schema.Definitions `json:"-"`
+	// OnRound (storm mode) is called right before the answers of a round are released;
+	// it may start finite bursts of additional concurrent API calls (C17).
+	OnRound func(in *drive.Inst, round int) `json:"-"`
 }
 
 const Watchdog = 8 * time.Second
@@ -537,6 +540,9 @@ func RunStorm(prop string, c *Case, env *fw.Env, v *fw.V) *Result {
 				<-barrier
 				in.Answer(r, bpmn.DoWithResults(results))
 			}(r)
+		}
+		if c.OnRound != nil {
+			c.OnRound(in, round)
 		}
 		close(barrier)
 		wg.Wait()
